@@ -216,6 +216,8 @@ def _allowed(e, table, depth=0):
     if isinstance(e, ast.Name):
         if e.id in table:
             return table[e.id]
+        if e.id in table.get("<module constants>", ()):
+            return e  # another module-level name bound once: referenced as it is
         return None
     if isinstance(e, ast.Attribute):
         # dotted reference to an imported immutable (timezone.utc, re.IGNORECASE)
@@ -315,7 +317,7 @@ class _ConstSubst(ast.NodeTransformer):
     visit_ListComp = visit_SetComp = visit_DictComp = visit_GeneratorExp = _comp
 
     def visit_Name(self, n):
-        if isinstance(n.ctx, ast.Load) and n.id in self.table and not any(n.id in s for s in self.scopes):
+        if isinstance(n.ctx, ast.Load) and n.id in self.table and n.id != "<module constants>" and not any(n.id in s for s in self.scopes):
             self.count += 1
             return ast.copy_location(_copy(self.table[n.id]), n)
         return n
@@ -366,7 +368,7 @@ def inline_constants(modules, log):
                         class_attr_owners.setdefault(t, []).append(st.name)
     for mi in modules.values():
         stores = _stores(mi.tree)
-        table = {}
+        table = {"<module constants>": {t for t in (_const_target(st) for st in mi.tree.body) if t and stores.get(t, 0) == 1}}
         for st in mi.tree.body:
             t = _const_target(st)
             if not t or f"{mi.name}:{t}" in known or stores.get(t, 0) != 1:
@@ -401,13 +403,13 @@ def inline_constants(modules, log):
                 m = _absmod(mi, st.level, st.module)
                 src_t = tables.get(m, {})
                 for a in st.names:
-                    if a.name in src_t and _stores(mi.tree).get(a.asname or a.name, 0) == 0:
+                    if a.name in src_t and a.name != "<module constants>" and _stores(mi.tree).get(a.asname or a.name, 0) == 0:
                         tables[mi.name].setdefault(a.asname or a.name, src_t[a.name])
     all_cls = {}
     for m, ct in cls_tables.items():
         all_cls.update(ct)
     for mi in modules.values():
-        if not tables[mi.name] and not all_cls:
+        if len(tables[mi.name]) <= 1 and not all_cls:
             continue
         tr = _ConstSubst(tables[mi.name], all_cls)
         # the defining assignments themselves stay (Store context is untouched)
@@ -458,7 +460,7 @@ class _Misc(ast.NodeTransformer):
                 and isinstance(st.target, ast.Name)
                 and isinstance(st.iter, (ast.Tuple, ast.List))
                 and 0 < len(st.iter.elts) <= 16
-                and all(isinstance(x, ast.Constant) for x in st.iter.elts)
+                and all(isinstance(x, (ast.Constant, ast.Name)) for x in st.iter.elts)
                 and not st.orelse
                 and len(st.body) <= 8
                 and not any(isinstance(x, (ast.Break, ast.Continue)) for b in st.body for x in ast.walk(b))
@@ -478,12 +480,51 @@ class _Misc(ast.NodeTransformer):
                 out.append(st)
         return out
 
+    def _untuple_in(self, stmts):
+        """a, b, c = row  ->  a = row[0]; b = row[1]; c = row[2]   (plain names from a plain name)"""
+        out = []
+        for st in stmts:
+            if (
+                isinstance(st, ast.Assign)
+                and len(st.targets) == 1
+                and isinstance(st.targets[0], ast.Tuple)
+                and len(st.targets[0].elts) >= 2
+                and all(isinstance(t, ast.Name) for t in st.targets[0].elts)
+                and isinstance(st.value, ast.Name)
+                and st.value.id not in {t.id for t in st.targets[0].elts}
+            ):
+                for i, t in enumerate(st.targets[0].elts):
+                    out.append(ast.copy_location(ast.Assign(targets=[ast.Name(id=t.id, ctx=ast.Store())], value=ast.Subscript(value=ast.Name(id=st.value.id, ctx=ast.Load()), slice=ast.Constant(value=i), ctx=ast.Load())), st))
+                self.log.append(f"untupled {self.modname}:{st.lineno} {ast.unparse(st)[:60]}")
+            elif (
+                isinstance(st, ast.Assign)
+                and len(st.targets) == 1
+                and isinstance(st.targets[0], ast.Tuple)
+                and len(st.targets[0].elts) == 2
+                and all(isinstance(t, ast.Name) for t in st.targets[0].elts)
+                and isinstance(st.value, ast.Call)
+                and isinstance(st.value.func, ast.Name)
+                and st.value.func.id == "divmod"
+                and len(st.value.args) == 2
+                and not st.value.keywords
+                and not any(isinstance(n, (ast.Call, ast.NamedExpr)) for a in st.value.args for n in ast.walk(a) if not (isinstance(n, ast.Call) and isinstance(n.func, ast.Name) and n.func.id in ("int", "len", "abs")))
+                and not any(isinstance(n, ast.Name) and n.id in {t.id for t in st.targets[0].elts} for a in st.value.args for n in ast.walk(a))
+            ):
+                # q, r = divmod(a, b)  ->  q = a // b; r = a % b   (a, b free of side effects)
+                a, b = st.value.args
+                for t, op in zip(st.targets[0].elts, (ast.FloorDiv(), ast.Mod())):
+                    out.append(ast.copy_location(ast.Assign(targets=[ast.Name(id=t.id, ctx=ast.Store())], value=ast.BinOp(left=_copy(a), op=op, right=_copy(b))), st))
+                self.log.append(f"divmod split {self.modname}:{st.lineno}")
+            else:
+                out.append(st)
+        return out
+
     def generic_visit(self, node):
         super().generic_visit(node)
         for field in ("body", "orelse", "finalbody"):
             blk = getattr(node, field, None)
             if isinstance(blk, list) and blk and isinstance(blk[0], ast.stmt):
-                setattr(node, field, self._unroll_in(blk))
+                setattr(node, field, self._untuple_in(self._unroll_in(blk)))
         return node
 
 
@@ -493,8 +534,35 @@ class _NameConst(ast.NodeTransformer):
 
     def visit_Name(self, n):
         if n.id == self.name and isinstance(n.ctx, ast.Load):
-            return ast.copy_location(ast.Constant(value=self.const.value), n)
+            return ast.copy_location(_copy(self.const), n)
         return n
+
+
+def split_tuple_assigns(stmts):
+    """a, b = (x, y) -> a = x; b = y  when a, b are plain names that x, y do not mention (recursively through blocks)"""
+    out = []
+    for st in stmts:
+        for field in ("body", "orelse", "finalbody"):
+            blk = getattr(st, field, None)
+            if isinstance(blk, list) and blk and isinstance(blk[0], ast.stmt):
+                setattr(st, field, split_tuple_assigns(blk))
+        if isinstance(st, ast.Try):
+            for h in st.handlers:
+                h.body = split_tuple_assigns(h.body)
+        if (
+            isinstance(st, ast.Assign)
+            and len(st.targets) == 1
+            and isinstance(st.targets[0], ast.Tuple)
+            and isinstance(st.value, ast.Tuple)
+            and len(st.targets[0].elts) == len(st.value.elts)
+            and all(isinstance(t, ast.Name) for t in st.targets[0].elts)
+            and not any(isinstance(n, ast.Name) and n.id in {t.id for t in st.targets[0].elts} for v in st.value.elts for n in ast.walk(v))
+        ):
+            for t, v in zip(st.targets[0].elts, st.value.elts):
+                out.append(ast.copy_location(ast.Assign(targets=[ast.Name(id=t.id, ctx=ast.Store())], value=v), st))
+        else:
+            out.append(st)
+    return out
 
 
 def run(modules, known_funcs):
